@@ -1,6 +1,7 @@
 import Grass.Module
 import GrassProofs.Lemmas.ModuleView
 import GrassProofs.Lemmas.ModuleLoader
+import GrassProofs.Lemmas.ModuleConfig
 /-
   C12 — Modules load once, stay isolated and expose only public members.
 
@@ -24,13 +25,19 @@ import GrassProofs.Lemmas.ModuleLoader
       (7) every `@use`/`@forward` cycle is reported as an error.
 
   Proved here: (1) (2) (3) (4) in full for the model (the code as it stands is the specified
-  variant, `C12_now_is_spec`); (5) for `@use … with` of a module and everything it reaches through
-  `@forward`s that have no `with` clause of their own, with any prefix / show / hide
-  (`C12_with_unknown_is_error_through_forwards_partial`, `C12_with_unknown_is_error_partial`,
-  `C12_with_after_load_is_error`, `C12_with_never_overrides_plain`) — what is missing is exactly the
-  case of a `@forward … with (…)` on the way (the configuration is then split into a new one); that
-  case is covered by the correspondence only, and the tree before the fix of F2 violated it
-  (`C12_asFound_forward_with_unchecked`);
+  variant, `C12_now_is_spec`); (5) in full for the rejection half: `C12_with_unknown_is_error`
+  (a configured variable that no module reachable through `@forward`s — with or without `with`
+  clauses, prefixes, show/hide — declares `!default` makes the `@use` fail), plus
+  `C12_with_after_load_is_error`, `C12_with_never_overrides_plain`, `C12_with_overrides_default`;
+  the tree before the fix of F2 violated it (`C12_asFound_forward_with_unchecked`).  Not stated as
+  a theorem: the positive half for nested `@forward … with` (which value a forwarded `!default`
+  variable finally gets) — checked by the correspondence only.
+  RESIDUAL, not in the model: `meta.load-css` and `@import` of a module that has `@forward` rules
+  (`import_forwards`).  In the code load-css is an import into the caller (meta.rs:70: the sheet is
+  re-evaluated on each call, its members and namespaces leak, `$with` is ignored — known finding
+  C12-loadCssIsImport), so "evaluated once" holds for `@use`/`@forward` (and for the modules a
+  load-css'ed or imported sheet uses) but not for the load-css'ed sheet itself; tools/props/c12.py
+  `check_loadcss_import` judges fixed scenarios on grass's own output;
   (6) as alias sameness of the generated table; (7) as the active-set invariant: a load that
   resolves to a module under evaluation is an error (`C12_cycle_is_error`), the active set is
   exactly restored by every successful load (`C12_active_restored`), and the cache of every run
@@ -143,6 +150,38 @@ theorem C12_fuel_suffices (sw : Switches) (proj : Project) (entry : Ident) :
       cases hres : o.res with
       | error e => simp only; intro he; cases he; exact this hres
       | ok r => simp
+
+/-! ## what "the same module" means: the canonical path -/
+
+/-- A URL resolves to the module whose canonical path is the canonical form (what
+    `Fs::canonicalize` returns: the path itself on the in-memory Fs, its lexical normal form on the
+    real disk) of one of the literal paths `find_import` probes — relative to the importing file
+    first, then the load paths. -/
+theorem C12_resolve_is_canonical (proj : Project) (u : Url) (m : ModSrc) (h : resolve proj u = some m) :
+    m ∈ proj ∧ ∃ c ∈ candidates u, m.path = (if u.lexical then normPath [] c else c) := by
+  unfold resolve at h
+  obtain ⟨c, hc, hf⟩ := List.exists_of_findSome?_eq_some h
+  refine ⟨List.mem_of_find?_eq_some hf, c, hc, ?_⟩
+  have := List.find?_some hf
+  simpa using this
+
+/-- Two spellings (`a`, `../p/a`, `x/../a`, through a load path, …) that reach the same canonical
+    path reach the same module — and `C12_loads_once` is about that module: one cache entry, one
+    evaluation.  Conversely, spellings that canonicalise differently (e.g. `x/../a` on a file system
+    whose `canonicalize` is the identity) are different modules for the code. -/
+theorem C12_same_canonical_path_same_module (proj : Project) (hd : proj.pathsDistinct = true) (m1 m2 : ModSrc)
+    (h1 : m1 ∈ proj) (h2 : m2 ∈ proj) (hp : m1.path = m2.path) : m1 = m2 := by
+  simp only [Project.pathsDistinct, decide_eq_true_eq] at hd
+  induction proj with
+  | nil => cases h1
+  | cons a l ih =>
+    simp only [List.map_cons, List.nodup_cons, List.mem_map, not_exists, not_and] at hd
+    simp only [List.mem_cons] at h1 h2
+    rcases h1 with h1 | h1 <;> rcases h2 with h2 | h2
+    · rw [h1, h2]
+    · subst h1; exact absurd hp.symm (hd.1 m2 h2)
+    · subst h2; exact absurd hp (hd.1 m1 h1)
+    · exact ih h1 h2 hd.2
 
 /-! ## (7) cycles -/
 
@@ -544,234 +583,21 @@ theorem C12_with_unknown_is_error_partial (sw : Switches) (proj : Project) (fuel
     | error e => exact ⟨e, rfl⟩
     | ok env' => simp only [hc1, if_true]; exact ⟨_, rfl⟩
 
-/-! ### … and through any chain of `@forward`s without their own `with` -/
+/-! ### … and through any chain of `@forward`s, with or without a `with` clause of their own -/
 
-/-- the name under which a configured variable reaches the module behind `@forward … as p*` -/
-def fwdName (r : FwdRule) (n : Ident) : Option Ident :=
-  match r.pfx with
-  | some p => if p.isPrefixOf n then some (n.drop p.length) else none
-  | none => some n
-
-/-- a statement cannot consume the configured variable, which this module sees as `vis` (`none`: it
-    cannot see it at all); `rec` answers the same question for a forwarded module -/
-def stmtKeeps (rec : Url → Option Ident → Bool) (vis : Option Ident) : Stmt → Bool
-  | .var m _ true => vis != some m
-  | .forward u r [] => rec u (vis.bind (fwdName r))
-  | .forward _ _ (_ :: _) => false
-  | _ => true
-
-/-- Nothing reachable from module `u` through `@forward`s (to depth `d`) declares the configured
-    variable with `!default`, and none of those `@forward`s has a `with` clause of its own. -/
-def cannotConsume (proj : Project) : Nat → Url → Option Ident → Bool
-  | 0, _, _ => false
-  | d + 1, u, vis =>
-    match resolve proj u with
-    | none => true
-    | some src => src.body.all (stmtKeeps (cannotConsume proj d) vis)
-
-/-- a loader that leaves the configured value under base key `b` alone whenever `rec` says so -/
-def KeepsB (loadF : LoadF) (rec : Url → Option Ident → Bool) : Prop :=
-  ∀ (url : Url) (cfg : Cfg) (st : St) (b : Ident) (vis : Option Ident) (id : Nat) (cfg' : Cfg),
-    (∀ n, viaLayers cfg.layers n = some b → some n = vis) → rec url vis = true →
-    (loadF url cfg st).res = .ok (id, cfg') →
-    cfg'.layers = cfg.layers ∧ cfg'.explicit = cfg.explicit ∧ cfg'.base.lookup b = cfg.base.lookup b
-
-theorem remove_keeps (cfg : Cfg) (m b : Ident) (h : viaLayers cfg.layers m ≠ some b) :
-    (cfg.remove m).2.layers = cfg.layers ∧ (cfg.remove m).2.explicit = cfg.explicit ∧
-    (cfg.remove m).2.base.lookup b = cfg.base.lookup b := by
-  unfold Cfg.remove
-  split
-  · exact ⟨rfl, rfl, rfl⟩
-  · rename_i b' hb'
-    refine ⟨rfl, rfl, ?_⟩
-    exact lookup_eraseKey_ne _ _ _ (fun he => h (by rw [hb', he]))
-
-theorem throughForward_vis (sw : Switches) (cfg : Cfg) (r : FwdRule) (b : Ident) (vis : Option Ident)
-    (hv : ∀ n, viaLayers cfg.layers n = some b → some n = vis) :
-    (throughForward sw cfg r).2 = false ∨
-    ((throughForward sw cfg r).1.base = cfg.base ∧
-      ∀ n', viaLayers (throughForward sw cfg r).1.layers n' = some b → some n' = vis.bind (fwdName r)) := by
-  unfold throughForward
-  split
-  · exact Or.inl rfl
-  · refine Or.inr ⟨rfl, ?_⟩
-    intro n' h
-    cases hp : r.pfx with
-    | none =>
-      have fin : viaLayers cfg.layers n' = some b → some n' = vis.bind (fwdName r) := by
-        intro hvl
-        rw [← hv n' hvl]
-        simp [fwdName, hp]
-      cases hvis : r.vis with
-      | all => simp only [hp, hvis] at h; exact fin h
-      | allow vs fs =>
-        simp only [hp, hvis, viaLayers] at h
-        split at h
-        · exact fin h
-        · cases h
-      | hide vs fs =>
-        simp only [hp, hvis, viaLayers] at h
-        split at h
-        · exact fin h
-        · cases h
-    | some p =>
-      have fin : viaLayers cfg.layers (p ++ n') = some b → some n' = vis.bind (fwdName r) := by
-        intro hvl
-        rw [← hv (p ++ n') hvl]
-        have hpre : p.isPrefixOf (p ++ n') = true := by simp [List.isPrefixOf_iff_prefix]
-        simp [fwdName, hp, hpre]
-      cases hvis : r.vis with
-      | all => simp only [hp, hvis, viaLayers] at h; exact fin h
-      | allow vs fs =>
-        simp only [hp, hvis, viaLayers] at h
-        split at h
-        · exact fin h
-        · cases h
-      | hide vs fs =>
-        simp only [hp, hvis, viaLayers] at h
-        split at h
-        · exact fin h
-        · cases h
-
-theorem step_keepsB (sw : Switches) (loadF : LoadF) (rec : Url → Option Ident → Bool) (hL : KeepsB loadF rec)
-    (s : Stmt) (env : Env) (cfg : Cfg) (st : St) (b : Ident) (vis : Option Ident)
-    (hv : ∀ n, viaLayers cfg.layers n = some b → some n = vis) (hs : stmtKeeps rec vis s = true)
-    (env' : Env) (cfg' : Cfg) (h : (step sw loadF s env cfg st).res = .ok (env', cfg')) :
-    cfg'.layers = cfg.layers ∧ cfg'.explicit = cfg.explicit ∧ cfg'.base.lookup b = cfg.base.lookup b := by
-  cases s with
-  | var m v g =>
-    cases g with
-    | false => simp [step] at h; rw [← h.2]; exact ⟨rfl, rfl, rfl⟩
-    | true =>
-      have hne : viaLayers cfg.layers m ≠ some b := by
-        intro he
-        have := hv m he
-        simp [stmtKeeps, ← this] at hs
-      have hk := remove_keeps cfg m b hne
-      simp only [step, if_true] at h
-      generalize cfg.remove m = rm at h hk
-      obtain ⟨ov, c2⟩ := rm
-      simp only at hk
-      cases ov with
-      | some cv => simp only at h; cases h; exact hk
-      | none =>
-        simp only at h
-        split at h <;> (cases h; exact hk)
-  | fn m b' => simp [step] at h; rw [← h.2]; exact ⟨rfl, rfl, rfl⟩
-  | mixin m => simp [step] at h; rw [← h.2]; exact ⟨rfl, rfl, rfl⟩
-  | css => simp [step] at h; rw [← h.2]; exact ⟨rfl, rfl, rfl⟩
-  | dbg => simp [step] at h; rw [← h.2]; exact ⟨rfl, rfl, rfl⟩
-  | use url ns withs =>
-    simp only [step] at h
-    repeat' split at h
-    all_goals (first | cases h | skip)
-    all_goals exact ⟨rfl, rfl, rfl⟩
-  | forward url rule withs =>
-    cases withs with
-    | cons w ws => simp [stmtKeeps] at hs
-    | nil =>
-      simp only [stmtKeeps] at hs
-      have htf := throughForward_vis sw cfg rule b vis hv
-      simp only [step] at h
-      cases htfe : throughForward sw cfg rule with
-      | mk adj shared =>
-        rw [htfe] at htf h
-        simp only [List.isEmpty_nil, if_true] at h
-        cases hr : (loadF url adj st).res with
-        | error e => simp only [hr] at h; cases h
-        | ok r =>
-          obtain ⟨id, adj'⟩ := r
-          simp only [hr] at h
-          cases h
-          rcases htf with hsf | ⟨hbase, hvis'⟩
-          · simp only at hsf
-            simp [hsf]
-          · cases shared with
-            | false => exact ⟨rfl, rfl, rfl⟩
-            | true =>
-              have := hL url adj st b _ id adj' hvis' hs hr
-              simp only at hbase
-              simp only [if_true, true_and]
-              rw [this.2.2, hbase]
-  | assign ns m v g =>
-    simp only [step] at h
-    repeat' split at h
-    all_goals (first | cases h | skip)
-    all_goals exact ⟨rfl, rfl, rfl⟩
-  | probe pid g k ns m =>
-    simp only [step] at h
-    repeat' split at h
-    all_goals (first | cases h | skip)
-    all_goals exact ⟨rfl, rfl, rfl⟩
-  | pkeys pid k ns =>
-    simp only [step] at h
-    repeat' split at h
-    all_goals (first | cases h | skip)
-    all_goals exact ⟨rfl, rfl, rfl⟩
-
-theorem evalStmts_keepsB (sw : Switches) (loadF : LoadF) (rec : Url → Option Ident → Bool) (hL : KeepsB loadF rec)
-    (b : Ident) (vis : Option Ident) :
-    ∀ (ss : List Stmt), (∀ s ∈ ss, stmtKeeps rec vis s = true) → ∀ (env : Env) (cfg : Cfg) (st : St),
-      (∀ n, viaLayers cfg.layers n = some b → some n = vis) → ∀ (env' : Env) (cfg' : Cfg),
-      (evalStmts sw loadF ss env cfg st).res = .ok (env', cfg') →
-      cfg'.layers = cfg.layers ∧ cfg'.explicit = cfg.explicit ∧ cfg'.base.lookup b = cfg.base.lookup b := by
-  intro ss
-  induction ss with
-  | nil => intro _ env cfg st _ env' cfg' h; unfold evalStmts at h; cases h; exact ⟨rfl, rfl, rfl⟩
-  | cons s rest ih =>
-    intro hk env cfg st hv env' cfg' h
-    simp only [evalStmts] at h
-    cases hs : (step sw loadF s env cfg st).res with
-    | error e => simp only [hs] at h; cases h
-    | ok r1 =>
-      obtain ⟨env1, cfg1⟩ := r1
-      simp only [hs] at h
-      have h1 := step_keepsB sw loadF rec hL s env cfg st b vis hv (hk s (by simp)) env1 cfg1 hs
-      have := ih (fun s hs => hk s (by simp [hs])) env1 cfg1 _ (by rw [h1.1]; exact hv) env' cfg' h
-      exact ⟨this.1.trans h1.1, this.2.1.trans h1.2.1, this.2.2.trans h1.2.2⟩
-
-theorem load_keepsB (sw : Switches) (proj : Project) :
-    ∀ (fuel d : Nat), KeepsB (load sw proj fuel) (cannotConsume proj d) := by
-  intro fuel
-  induction fuel with
-  | zero => intro d url cfg st b vis id cfg' _ _ h; simp [load] at h
-  | succ fuel ih =>
-    intro d url cfg st b vis id cfg' hv hc h
-    cases d with
-    | zero => simp [cannotConsume] at hc
-    | succ d =>
-      revert h
-      simp only [load]
-      cases hres : resolve proj url with
-      | none => intro h; cases h
-      | some src =>
-        simp only [cannotConsume, hres, List.all_eq_true] at hc
-        simp only
-        split
-        · intro h; cases h
-        · split
-          · intro h; cases h
-          · split
-            · intro h; cases h; exact ⟨rfl, rfl, rfl⟩
-            · generalize ho : evalStmts sw (load sw proj fuel) src.body (Env.new src.name) cfg _ = o
-              cases hr : o.res with
-              | error e => intro h; cases h
-              | ok r1 =>
-                obtain ⟨env1, cfg1⟩ := r1
-                intro h
-                cases h
-                exact evalStmts_keepsB sw (load sw proj fuel) (cannotConsume proj d) (ih d) b vis src.body hc
-                  (Env.new src.name) cfg _ hv env1 cfg' (by rw [ho]; exact hr)
-
-/-- **`with` of a variable that nothing can take is an error — through `@forward` chains.** If the
-    `with` clause of a `@use` names `n`, and neither the module nor any module reachable from it
-    through `@forward`s (with any prefix / show / hide, translating the name on the way) declares
-    that variable with `!default`, the `@use` fails, for every switch setting.  PARTIAL with
-    respect to (5) in one respect only: the `@forward` rules on the way must not have a `with`
-    clause of their own (`cannotConsume` answers `false` for them); for those the statement is
-    checked by the correspondence, not proved. -/
-theorem C12_with_unknown_is_error_through_forwards_partial (sw : Switches) (proj : Project) (fuel d : Nat) (url : Url)
-    (ns : UseNs) (withs : List (Ident × Val)) (n : Ident) (env : Env) (cfg : Cfg) (st : St)
+/-- **`with` of a variable that nothing can take is an error — unrestricted.**  If the `with`
+    clause of a `@use` names `n` and `cannotConsume` holds — no module reachable from the used one
+    through `@forward`s declares that variable with `!default` under the name it has there
+    (translated through every `as p-*`; show/hide only make it less visible), where a
+    `@forward … with (…)` on the way either sets the name itself (then the outer value is never
+    used), or takes it with a `!default` entry / copies it into the new configuration (then the
+    forwarded module must not be able to take it either) — then the `@use` fails: with the
+    not-declared-with-`!default` error of the `@use` itself, of the `@forward … with` whose
+    `!default` entry took the value, or with an earlier error of the modules being loaded.
+    Holds for every switch setting in which a configuration stays explicit through `@forward`
+    (e12a9ef), in particular for the code as it stands. -/
+theorem C12_with_unknown_is_error (sw : Switches) (hsw : sw.fwdCfgImplicit = false) (proj : Project) (fuel d : Nat)
+    (url : Url) (ns : UseNs) (withs : List (Ident × Val)) (n : Ident) (env : Env) (cfg : Cfg) (st : St)
     (hn : (withs.lookup n).isSome = true) (hc : cannotConsume proj d url (some n) = true) :
     ∃ e, (step sw (load sw proj fuel) (.use url ns withs) env cfg st).res = .error e := by
   have hne : withs.isEmpty = false := by cases withs <;> simp_all
@@ -781,7 +607,7 @@ theorem C12_with_unknown_is_error_through_forwards_partial (sw : Switches) (proj
   | ok r =>
     obtain ⟨id, c1⟩ := r
     simp only
-    have hk := load_keepsB sw proj fuel d url ⟨withs, [], true⟩ st n (some n) id c1
+    have hk := load_keepsB sw hsw proj fuel d url ⟨withs, [], true⟩ st n (some n) id c1 rfl
       (by intro m hm; simp only [viaLayers] at hm; exact hm.symm ▸ rfl) hc hl
     have hc1 : c1.leftover = true := by
       obtain ⟨b, l, e⟩ := c1
@@ -796,6 +622,14 @@ theorem C12_with_unknown_is_error_through_forwards_partial (sw : Switches) (proj
     cases addModule sw env ns url.base id (load sw proj fuel url ⟨withs, [], true⟩ st).st.mods with
     | error e => exact ⟨e, rfl⟩
     | ok env' => simp only [hc1, if_true]; exact ⟨_, rfl⟩
+
+/-- for the code as it stands -/
+theorem C12_with_unknown_is_error_now (proj : Project) (fuel d : Nat) (url : Url) (ns : UseNs)
+    (withs : List (Ident × Val)) (n : Ident) (env : Env) (cfg : Cfg) (st : St)
+    (hn : (withs.lookup n).isSome = true) (hc : cannotConsume proj d url (some n) = true) :
+    ∃ e, (step .now (load .now proj fuel) (.use url ns withs) env cfg st).res = .error e :=
+  C12_with_unknown_is_error .now rfl proj fuel d url ns withs n env cfg st hn hc
+
 
 /-- **`with` after load is an error.** A `@use … with (…)` of a module that is already in the
     cache cannot configure it; the clause is left over and the rule fails (grass reports it with
@@ -819,7 +653,7 @@ theorem C12_with_after_load_is_error (sw : Switches) (proj : Project) (fuel : Na
         have : (⟨withs, [], true⟩ : Cfg).leftover = true := by simp [Cfg.leftover, Cfg.isEmpty, layersEmpty, hne]
         simp only [this, if_true]; exact ⟨_, rfl⟩
 
-private def srcA : ModSrc := ⟨['a'], false, [.var ['x'] 1 true, .var ['y'] 2 false, .var ['z'] 3 true, .dbg, .css]⟩
+private def srcA : ModSrc := (ModSrc.flat ['a'] false [.var ['x'] 1 true, .var ['y'] 2 false, .var ['z'] 3 true, .dbg, .css])
 
 /-- Witness (the tree before the fix): under an outer configuration a `@forward … with` is never
     checked — `@use "mid" with ($x: 8)` where `mid` is `@forward "a" with ($zz: 7)` compiles although
@@ -827,8 +661,8 @@ private def srcA : ModSrc := ⟨['a'], false, [.var ['x'] 1 true, .var ['y'] 2 f
 theorem C12_asFound_forward_with_unchecked :
     ∃ (proj : Project) (entry : Ident), proj.wf = true ∧
       resErr (run .beforeFixes proj entry).res = none ∧ resErr (run .spec proj entry).res = some .withNotDefault :=
-  ⟨[srcA, ⟨['m'], false, [.forward ⟨['a'], false⟩ ⟨none, .all⟩ [(['z', 'z'], 7, false)]]⟩,
-    ⟨['e'], false, [.use ⟨['m'], false⟩ .dflt [(['x'], 8)]]⟩], ['e'], by decide, by decide, by decide⟩
+  ⟨[srcA, (ModSrc.flat ['m'] false [.forward (Url.flat ['a'] false) ⟨none, .all⟩ [(['z', 'z'], 7, false)]]),
+    (ModSrc.flat ['e'] false [.use (Url.flat ['m'] false) .dflt [(['x'], 8)]])], ['e'], by decide, by decide, by decide⟩
 
 /-- Witnesses (the tree before the fixes): two inputs on which grass panics where the specified variant
     reports an ordinary error or compiles. -/
@@ -836,10 +670,10 @@ theorem C12_asFound_panics :
     ∃ (p1 p2 : Project) (entry : Ident),
       resErr (run .beforeFixes p1 entry).res = some .panic ∧ resErr (run .spec p1 entry).res = some .undefVar ∧
       resErr (run .beforeFixes p2 entry).res = some .panic ∧ resErr (run .spec p2 entry).res = none :=
-  ⟨[srcA, ⟨['m'], false, [.forward ⟨['a'], false⟩ ⟨none, .all⟩ []]⟩,
-     ⟨['e'], false, [.use ⟨['m'], false⟩ .dflt [], .assign ['m'] ['n', 'o'] 5 false]⟩],
-   [srcA, ⟨['m'], false, [.forward ⟨['a'], false⟩ ⟨some ['p', '-'], .all⟩ [(['z'], 7, true)]]⟩,
-     ⟨['e'], false, [.use ⟨['m'], false⟩ .dflt [(['p', '-', 'x'], 8)]]⟩],
+  ⟨[srcA, (ModSrc.flat ['m'] false [.forward (Url.flat ['a'] false) ⟨none, .all⟩ []]),
+     (ModSrc.flat ['e'] false [.use (Url.flat ['m'] false) .dflt [], .assign ['m'] ['n', 'o'] 5 false])],
+   [srcA, (ModSrc.flat ['m'] false [.forward (Url.flat ['a'] false) ⟨some ['p', '-'], .all⟩ [(['z'], 7, true)]]),
+     (ModSrc.flat ['e'] false [.use (Url.flat ['m'] false) .dflt [(['p', '-', 'x'], 8)]])],
    ['e'], by decide, by decide, by decide, by decide⟩
 
 /-! ## (6) built-in modules and their global aliases -/
@@ -871,11 +705,10 @@ example : "floor" ∈ builtinAliases "math" "floor" ∧ "map-get" ∈ builtinAli
 
 /-! ## non-vacuity: the hypotheses are met by concrete non-trivial values -/
 
-private def srcB : ModSrc := ⟨['b'], false, [.use ⟨['a'], false⟩ .dflt [], .dbg, .css]⟩
-private def srcC : ModSrc := ⟨['c'], true, [.use ⟨['a'], false⟩ (.named ['n']) [], .assign ['n'] ['y'] 9 false, .dbg, .css]⟩
-private def srcMain : ModSrc := ⟨['e'], false,
-  [.use ⟨['b'], false⟩ .dflt [], .use ⟨['c'], true⟩ .dflt [], .use ⟨['a'], false⟩ .star [], .dbg, .css,
-   .probe 1 false .var none ['y']]⟩
+private def srcB : ModSrc := (ModSrc.flat ['b'] false [.use (Url.flat ['a'] false) .dflt [], .dbg, .css])
+private def srcC : ModSrc := (ModSrc.flat ['c'] true [.use (Url.flat ['a'] false) (.named ['n']) [], .assign ['n'] ['y'] 9 false, .dbg, .css])
+private def srcMain : ModSrc := (ModSrc.flat ['e'] false [.use (Url.flat ['b'] false) .dflt [], .use (Url.flat ['c'] true) .dflt [], .use (Url.flat ['a'] false) .star [], .dbg, .css,
+   .probe 1 false .var none ['y']])
 private def diamond : Project := [srcA, srcB, srcC, srcMain]
 
 -- a diamond: `a` is loaded three times, evaluated once; the assignment made in `c` is seen in the entry
@@ -889,14 +722,24 @@ example : (modAt (run .now diamond ['e']).st.mods 1).map (·.nss) = some [(['a']
     (modAt (run .now diamond ['e']).st.mods 2).map (·.nss) = some [(['n'], 0)] ∧
     (modAt (run .now diamond ['e']).st.mods 0).map (·.path) = some ['a'] := by decide
 
+-- directories, load paths and canonicalisation: from `p/x`, `../a` is the literal path `p/x/../a`; it is the file `p/a`
+-- only where canonicalize resolves `..`; `b` is found through the load path `p/lib` after the relative miss
+private def mRootA : ModSrc := ⟨['a'], [['p'], ['a']], [.dbg, .css]⟩
+private def mLibB : ModSrc := ⟨['b'], [['p'], ['l', 'i', 'b'], ['_', 'b']], [.dbg, .css]⟩
+example : resolve [mRootA, mLibB] ⟨[['p'], ['x']], [['.', '.']], ['a'], false, false, [], true⟩ = some mRootA ∧
+    resolve [mRootA, mLibB] ⟨[['p'], ['x']], [['.', '.']], ['a'], false, false, [], false⟩ = none ∧
+    resolve [mRootA, mLibB] ⟨[['p'], ['x']], [], ['b'], false, false, [[['p'], ['l', 'i', 'b']]], false⟩ = some mLibB ∧
+    resolve [mRootA, mLibB] ⟨[['p'], ['x']], [], ['b'], false, true, [[['p'], ['l', 'i', 'b']]], false⟩ = none ∧
+    Project.pathsDistinct [mRootA, mLibB] = true := by decide
+
 -- cycles of length 2 (through @use) and through @forward are errors
-example : resErr (run .now [⟨['a'], false, [.use ⟨['b'], false⟩ .dflt []]⟩, ⟨['b'], false, [.use ⟨['a'], false⟩ .dflt []]⟩,
-    ⟨['e'], false, [.use ⟨['a'], false⟩ .dflt []]⟩] ['e']).res = some .moduleLoop := by decide
-example : resErr (run .now [⟨['a'], false, [.forward ⟨['e'], false⟩ ⟨none, .all⟩ []]⟩,
-    ⟨['e'], false, [.use ⟨['a'], false⟩ .dflt []]⟩] ['e']).res = some .moduleLoop := by decide
+example : resErr (run .now [(ModSrc.flat ['a'] false [.use (Url.flat ['b'] false) .dflt []]), (ModSrc.flat ['b'] false [.use (Url.flat ['a'] false) .dflt []]),
+    (ModSrc.flat ['e'] false [.use (Url.flat ['a'] false) .dflt []])] ['e']).res = some .moduleLoop := by decide
+example : resErr (run .now [(ModSrc.flat ['a'] false [.forward (Url.flat ['e'] false) ⟨none, .all⟩ []]),
+    (ModSrc.flat ['e'] false [.use (Url.flat ['a'] false) .dflt []])] ['e']).res = some .moduleLoop := by decide
 
 -- C12_cycle_is_error: its hypotheses hold in the state in which `b` tries to load `a`
-example : resolve [srcA, srcB] ⟨['a'], false⟩ = some srcA ∧ srcA.parseError = false ∧
+example : resolve [srcA, srcB] (Url.flat ['a'] false) = some srcA ∧ srcA.parseError = false ∧
     ['a'] ∈ (⟨[], [['b'], ['a'], ['e']], [], []⟩ : St).active := by decide
 
 -- privacy: `$-p` is in the module, visible under no name; `$x` is
@@ -908,7 +751,7 @@ example : (scopeView .now .var [mA] 0).get ['-', 'p'] = none ∧
 example : (scopeView .now .var [⟨['m'], [], [], [], [⟨⟨some ['p', '-'], .all⟩, 0⟩], [], []⟩, mA] 1).get ['p', '-', 'y'] = some ⟨0, ['y']⟩ ∧
     (scopeView .now .var [⟨['m'], [], [], [], [⟨⟨some ['p', '-'], .all⟩, 0⟩], [], []⟩, mA] 0).get ['y'] = some ⟨0, ['y']⟩ ∧
     ([(['n'], 1)] : List (Ident × Nat)).lookup ['n'] = some 1 ∧ ([(['a'], 0)] : List (Ident × Nat)).lookup ['a'] = some 0 := by decide
-example : resolve [srcA] ⟨['a'], false⟩ = some srcA ∧ findLoaded [mA] ['a'] = some 0 ∧
+example : resolve [srcA] (Url.flat ['a'] false) = some srcA ∧ findLoaded [mA] ['a'] = some 0 ∧
     (([(['y'], 8)] : List (Ident × Val)).lookup ['y']).isSome = true := by decide
 
 -- forward view: prefix and show list naming the prefixed name
@@ -918,23 +761,37 @@ example : (forwardedMap .spec .var ⟨some ['p', '-'], .allow [['p', '-', 'x']] 
     (forwardedMap .spec .var ⟨some ['p', '-'], .allow [['x']] []⟩ (scopeView .spec .var [mA] 0)).get ['p', '-', 'x'] = none := by decide
 
 -- configuration: ok for `!default`, error for a plain variable, for an unknown one and after load
-example : (run .now [srcA, ⟨['e'], false, [.use ⟨['a'], false⟩ .dflt [(['x'], 8)], .probe 1 false .var (some ['a']) ['x']]⟩] ['e']).st.trace.getLast?
+example : (run .now [srcA, (ModSrc.flat ['e'] false [.use (Url.flat ['a'] false) .dflt [(['x'], 8)], .probe 1 false .var (some ['a']) ['x']])] ['e']).st.trace.getLast?
     = some (.probe 1 (.val 8)) := by decide
-example : resErr (run .now [srcA, ⟨['e'], false, [.use ⟨['a'], false⟩ .dflt [(['y'], 8)]]⟩] ['e']).res = some .withNotDefault := by decide
-example : resErr (run .now [srcA, ⟨['e'], false, [.use ⟨['a'], false⟩ .dflt [(['q'], 8)]]⟩] ['e']).res = some .withNotDefault := by decide
-example : resErr (run .now [srcA, ⟨['e'], false, [.use ⟨['a'], false⟩ .dflt [], .use ⟨['a'], false⟩ (.named ['n']) [(['x'], 8)]]⟩] ['e']).res
+example : resErr (run .now [srcA, (ModSrc.flat ['e'] false [.use (Url.flat ['a'] false) .dflt [(['y'], 8)]])] ['e']).res = some .withNotDefault := by decide
+example : resErr (run .now [srcA, (ModSrc.flat ['e'] false [.use (Url.flat ['a'] false) .dflt [(['q'], 8)]])] ['e']).res = some .withNotDefault := by decide
+example : resErr (run .now [srcA, (ModSrc.flat ['e'] false [.use (Url.flat ['a'] false) .dflt [], .use (Url.flat ['a'] false) (.named ['n']) [(['x'], 8)]])] ['e']).res
     = some .withNotDefault := by decide
 example : ∀ s ∈ srcA.body, keepsCfg ['y'] s = true := by decide
 
--- C12_with_unknown_is_error_through_forwards_partial: `$p-y` reaches `a` as `$y` through `@forward "a" as p-*` (and through
+-- C12_with_unknown_is_error: `$p-y` reaches `a` as `$y` through `@forward "a" as p-*` (and through
 -- a second forwarder); `a` declares `$y` without `!default`, so nothing can take it — and the compilation fails
-private def srcMidP : ModSrc := ⟨['m'], false, [.forward ⟨['a'], false⟩ ⟨some ['p', '-'], .all⟩ []]⟩
-private def srcTop : ModSrc := ⟨['t'], false, [.forward ⟨['m'], false⟩ ⟨none, .hide [['p', '-', 'x']] []⟩ []]⟩
-example : cannotConsume [srcA, srcMidP, srcTop] 3 ⟨['t'], false⟩ (some ['p', '-', 'y']) = true ∧
-    cannotConsume [srcA, srcMidP, srcTop] 3 ⟨['t'], false⟩ (some ['p', '-', 'z']) = false ∧
-    resErr (run .now [srcA, srcMidP, srcTop, ⟨['e'], false, [.use ⟨['t'], false⟩ .dflt [(['p', '-', 'y'], 8)]]⟩] ['e']).res
+private def srcMidP : ModSrc := (ModSrc.flat ['m'] false [.forward (Url.flat ['a'] false) ⟨some ['p', '-'], .all⟩ []])
+private def srcTop : ModSrc := (ModSrc.flat ['t'] false [.forward (Url.flat ['m'] false) ⟨none, .hide [['p', '-', 'x']] []⟩ []])
+example : cannotConsume [srcA, srcMidP, srcTop] 3 (Url.flat ['t'] false) (some ['p', '-', 'y']) = true ∧
+    cannotConsume [srcA, srcMidP, srcTop] 3 (Url.flat ['t'] false) (some ['p', '-', 'z']) = false ∧
+    resErr (run .now [srcA, srcMidP, srcTop, (ModSrc.flat ['e'] false [.use (Url.flat ['t'] false) .dflt [(['p', '-', 'y'], 8)]])] ['e']).res
       = some .withNotDefault ∧
-    resErr (run .now [srcA, srcMidP, srcTop, ⟨['e'], false, [.use ⟨['t'], false⟩ .dflt [(['p', '-', 'z'], 8)]]⟩] ['e']).res
+    resErr (run .now [srcA, srcMidP, srcTop, (ModSrc.flat ['e'] false [.use (Url.flat ['t'] false) .dflt [(['p', '-', 'z'], 8)]])] ['e']).res
+      = none := by decide
+
+-- … and through `@forward … with`: `a` has `$x`, `$z` with `!default` and a plain `$y`.
+--   with ($y: 7 !default) takes the outer `$y`, `a` cannot: error at the @forward;  with ($x: 7) sets `$x` itself, so an
+--   outer `$x` is never used: error at the @use;  an outer `$z` is copied through and taken by `a`: fine.
+private def srcFw (ws : List (Ident × Val × Bool)) : ModSrc := (ModSrc.flat ['m'] false [.forward (Url.flat ['a'] false) ⟨none, .all⟩ ws])
+example : cannotConsume [srcA, srcFw [(['y'], 7, true)]] 2 (Url.flat ['m'] false) (some ['y']) = true ∧
+    resErr (run .now [srcA, srcFw [(['y'], 7, true)], (ModSrc.flat ['e'] false [.use (Url.flat ['m'] false) .dflt [(['y'], 8)]])] ['e']).res
+      = some .withNotDefault ∧
+    cannotConsume [srcA, srcFw [(['x'], 7, false)]] 2 (Url.flat ['m'] false) (some ['x']) = true ∧
+    resErr (run .now [srcA, srcFw [(['x'], 7, false)], (ModSrc.flat ['e'] false [.use (Url.flat ['m'] false) .dflt [(['x'], 8)]])] ['e']).res
+      = some .withNotDefault ∧
+    cannotConsume [srcA, srcFw [(['x'], 7, false)]] 2 (Url.flat ['m'] false) (some ['z']) = false ∧
+    resErr (run .now [srcA, srcFw [(['x'], 7, false)], (ModSrc.flat ['e'] false [.use (Url.flat ['m'] false) .dflt [(['z'], 8)]])] ['e']).res
       = none := by decide
 
 end Grass.Module
